@@ -144,6 +144,17 @@ class SymBytes:
         from . import strings
         return strings.hex_of(self)
 
+    def rjust(self, width, fill=b' '):
+        pad = max(0, width - len(self.b))
+        return mk_bytes(list(items_of(fill)) * pad + list(self.b)) if pad else self
+
+    def ljust(self, width, fill=b' '):
+        pad = max(0, width - len(self.b))
+        return mk_bytes(list(self.b) + list(items_of(fill)) * pad) if pad else self
+
+    def zfill(self, width):
+        return self.rjust(width, b'0')
+
     def decode(self, enc='utf-8', errors='strict'):
         from . import strings
         return strings.decode_utf8(self)
